@@ -86,13 +86,16 @@ HANDLER_RULE = (" PLUS handler-level differential on the property's bounded doma
                 "distinct_nontrivial counts distinct case lines")
 
 
-def cosim_plan(exclude=(), handlers=None):
+def cosim_plan(exclude=(), handlers=None, d3=False):
     def drivers(ctx):
         d = []
+        if d3:
+            # the delayed vote-request goroutine schedule (defect D3), replayed on real nodes through the held-election hook
+            d.append({"name": "d3witness", "cmd": [os.path.join(HB, "d3witness")]})
         if handlers:
             d += handler_driver(handlers)(ctx)
         return d + cosim_drivers(exclude)(ctx)
-    return {"harness": ["cosim"] + (["handlerdiff"] if handlers else []), "drivers": drivers,
+    return {"harness": ["cosim"] + (["handlerdiff"] if handlers else []) + (["d3witness"] if d3 else []), "drivers": drivers,
             "rule": COSIM_RULE + (HANDLER_RULE if handlers else ""), "assumptions": COSIM_ASSUME,
             "nontrivial": (lambda l: l.startswith("HSEQ")) if handlers else (lambda l: False)}
 
@@ -137,7 +140,7 @@ PLANS = {
                         "sort.Slice leaves an input without inversions unchanged (the comparator in directories() always returns false); "
                         "ReadDir returns names sorted, timestamps have equal digit counts"],
     },
-    "C01": cosim_plan(_SAFETY_EXCL), "C02": cosim_plan(_SAFETY_EXCL), "C03": cosim_plan(_SAFETY_EXCL),
+    "C01": cosim_plan(_SAFETY_EXCL), "C02": cosim_plan(_SAFETY_EXCL, None, True), "C03": cosim_plan(_SAFETY_EXCL),
     "C04": cosim_plan(_SAFETY_EXCL), "C05": cosim_plan(), "C06": cosim_plan(_SAFETY_EXCL, "ae"), "C07": cosim_plan(_SAFETY_EXCL),
     "C08": cosim_plan(_SAFETY_EXCL, "rv"), "C09": cosim_plan(), "C10": cosim_plan(_SAFETY_EXCL), "C11": cosim_plan(_SAFETY_EXCL, "is"),
     "C14": cosim_plan(_SAFETY_EXCL), "C15": cosim_plan(), "C16": cosim_plan(), "C17": cosim_plan(),
